@@ -10,6 +10,8 @@ import Stevia.Proofs.ArraySetState
 import Stevia.Props.C06
 import Stevia.Proofs.ExecInv
 import Stevia.Proofs.GenASetRefine
+import Stevia.Proofs.GenTreeRefine32
+import Stevia.Proofs.GenTreeRefine8
 
 namespace Stevia.C12
 open Stevia
@@ -98,5 +100,47 @@ theorem translated_array_set_total {κ : Type} [LinOrd κ] {key : α → κ} {P 
   obtain ⟨h3, h4⟩ := GenA.get_refines hi x
   rw [h1, h2, h3, h4]
   exact ⟨rfl, rfl, rfl, rfl⟩
+
+/-! ### Tie through the translator: the code as written neither panics nor loops on
+
+A translated function (`Stevia.Gen32.*`, `Stevia.Gen8.*`, regenerated from the tree files on every run) answers `none`
+where the Rust panics (`add`'s "tree is full") and where a `while`/`loop` does not leave by its own condition within
+`records + 1` iterations. -/
+
+/-- `avl_tree.rs`: in every reachable state every translated operation returns normally. -/
+theorem translated_tree_total_u32 (kd : α) (vd : β) (s : Tree α β) (h : Tree.Reach cfgU32 s) (k : α) (v : β) :
+    (Gen32.insert (Imp.dflt kd vd) (Gen32.from_bytes_mut (Imp.dflt kd vd) (s.image cfgU32 kd vd)) k v).isSome ∧
+    (Gen32.remove (Imp.dflt kd vd) (Gen32.from_bytes_mut (Imp.dflt kd vd) (s.image cfgU32 kd vd)) k).isSome ∧
+    (Gen32.find (Imp.dflt kd vd) (s.image cfgU32 kd vd) k).isSome ∧
+    (Gen32.contains (Imp.dflt kd vd) (s.image cfgU32 kd vd) k).isSome ∧
+    (Gen32.lowest (Imp.dflt kd vd) (s.image cfgU32 kd vd)).isSome ∧
+    (Gen32.get_mut (Imp.dflt kd vd) (s.image cfgU32 kd vd) k).isSome := by
+  have hi := Tree.reach_inv h
+  obtain ⟨_, _, _, _, e1⟩ := Gen32.transition_insert kd vd s h k v
+  obtain ⟨_, _, _, _, e2⟩ := Gen32.transition_remove kd vd s h k
+  have e6 := Gen32.get_mut_refines kd vd s hi k v
+  refine ⟨by rw [e1]; rfl, by rw [e2]; rfl, by rw [Gen32.find_refines kd vd s hi k]; rfl,
+    by rw [Gen32.contains_refines kd vd s hi k]; rfl, by rw [Gen32.lowest_refines kd vd s hi]; rfl, ?_⟩
+  cases hg : Gen32.get_mut (Imp.dflt kd vd) (s.image cfgU32 kd vd) k with
+  | none => rw [hg] at e6; cases e6
+  | some _ => rfl
+
+/-- `u8_avl_tree.rs`: in every reachable state every translated operation returns normally. -/
+theorem translated_tree_total_u8 (kd : α) (vd : β) (s : Tree α β) (h : Tree.Reach cfgU8 s) (k : α) (v : β) :
+    (Gen8.insert (Imp.dflt kd vd) (Gen8.from_bytes_mut (Imp.dflt kd vd) (s.image cfgU8 kd vd)) k v).isSome ∧
+    (Gen8.remove (Imp.dflt kd vd) (Gen8.from_bytes_mut (Imp.dflt kd vd) (s.image cfgU8 kd vd)) k).isSome ∧
+    (Gen8.find (Imp.dflt kd vd) (s.image cfgU8 kd vd) k).isSome ∧
+    (Gen8.contains (Imp.dflt kd vd) (s.image cfgU8 kd vd) k).isSome ∧
+    (Gen8.lowest (Imp.dflt kd vd) (s.image cfgU8 kd vd)).isSome ∧
+    (Gen8.get_mut (Imp.dflt kd vd) (s.image cfgU8 kd vd) k).isSome := by
+  have hi := Tree.reach_inv h
+  obtain ⟨_, _, _, _, e1⟩ := Gen8.transition_insert kd vd s h k v
+  obtain ⟨_, _, _, _, e2⟩ := Gen8.transition_remove kd vd s h k
+  have e6 := Gen8.get_mut_refines kd vd s hi k v
+  refine ⟨by rw [e1]; rfl, by rw [e2]; rfl, by rw [Gen8.find_refines kd vd s hi k]; rfl,
+    by rw [Gen8.contains_refines kd vd s hi k]; rfl, by rw [Gen8.lowest_refines kd vd s hi]; rfl, ?_⟩
+  cases hg : Gen8.get_mut (Imp.dflt kd vd) (s.image cfgU8 kd vd) k with
+  | none => rw [hg] at e6; cases e6
+  | some _ => rfl
 
 end Stevia.C12
